@@ -100,6 +100,10 @@ static void run_single(const Case& c) {
   if (is_c05) c05_check(u, c, 2, "parse");
   std::optional<T> copy; obs::Snap copy_snap; bool to_copy = false;
   uint64_t shape = 0, refusals = 0, changes = 0; uint64_t transitions = 0;
+  // C05's base is "any successfully *parsed* URL": once a component setter has changed the object it may hold a
+  // serialisation no parse produces (https://h/o|/x -> set_protocol(file) -> file://h/o|/x), and resolving against it
+  // legitimately inherits that path. Resolutions are only re-parse-checked while the object is a parser output.
+  bool parser_output = true;
   for (size_t i = 3; i + 1 < c.size(); i += 2) {
     const char k = c[i][0]; const std::string& v = c[i + 1];
     n_ops++;
@@ -115,7 +119,7 @@ static void run_single(const Case& c) {
         if ((rr == ref::RES_OK) != (bool)res) vh::violation("resolve-success-mismatch", c, std::string("ref=") + (rr == ref::RES_OK ? "ok " + rres.href() : "failure") + " ada=" + (res ? std::string(res->get_href()) : "failure") + " after " + opdesc(c, i + 1));
         else if (res && obs::snap(*res).api() != obs::ref_api(rres)) vh::violation("resolve-mismatch", c, obs::first_diff(obs::snap(*res).api(), obs::ref_api(rres)) + " after " + opdesc(c, i + 1));
       }
-      if (res) { quiescent(*res, i + 1, "resolve"); if (is_c05) c05_check(*res, c, i + 1, "resolve"); }
+      if (res) { quiescent(*res, i + 1, "resolve"); if (is_c05 && parser_output) c05_check(*res, c, i + 1, "resolve"); }
       continue;
     }
     int op = k - 'a'; if (op < 0 || op >= obs::OP_COUNT) continue;
@@ -127,6 +131,7 @@ static void run_single(const Case& c) {
     bool changed = !(after == before);
     shape = vh::mix(shape, (uint64_t)op * 4 + (ret == 0 ? 1 : 0) + (changed ? 2 : 0));
     if (ret == 0) { refusals++; n_refused++; } if (changed) { changes++; n_changed++; }
+    if (target_is(u, target) && changed) parser_output = (op == obs::SET_HREF && ret == 1);
     if (after.protocol != before.protocol) transitions |= 1; if (after.hostname != before.hostname) transitions |= 2; if (after.port != before.port) transitions |= 4;
     if (is_c03) {
       if (ret == 0 && changed) vh::violation(std::string("setter-false-but-changed:") + obs::op_name(op), c, "before=" + before.href + " after=" + after.href + " preds " + before.preds() + " -> " + after.preds() + " comps " + before.comps() + " -> " + after.comps() + " history " + opdesc(c, i + 1));
